@@ -76,7 +76,7 @@ CLAIMED = {
     "C02": {
         "technique": "loop-range / alias analysis of every loop over the request queues, definite-assignment "
                      "abstract interpretation of the enqueue functions over struct fields, call-precondition and "
-                     "id-parity table rules (clang CFG + AST)",
+                     "id-parity table rules (clang CFG + AST); bounded analyser-side evaluation of two integer slices",
         "text": "Decides six structural necessary conditions of wait/cancel equivalence: every one of the ~48 loops "
                 "that index a request queue ranges over that queue's own length field (aliases resolved); no read "
                 "through a stale element pointer inside a queue-compaction loop; every field of an enqueued "
@@ -84,8 +84,10 @@ CLAIMED = {
                 "ncmpio_add_record_requests divide nelems by the record count first; request-id parity is consistent "
                 "between assigners and classifiers; in the sorted queue insertion of both enqueue functions the amount the "
                 "non-lead queue grows by, the shift of its elements and the nonlead_off adjustment of the displaced lead "
-                "requests are one expression. It does not decide equality of file contents with blocking "
-                "execution, nor merge/sort/interleave logic in req_aggregation (seeded change C02_a is missed).",
+                "requests are one expression. Two bounded rules evaluate slices in the analyser: extract_reqs selects "
+                "exactly the lead requests named by the non-NULL ids (small queues and id lists, NC_REQ_NULL "
+                "included); the interleave flag computed by req_aggregation equals a pairwise overlap model on small "
+                "sorted offset lists. It does not decide equality of file contents with blocking execution.",
         "note": "assume_mpi_ok; queue fields identified by struct NC field identity; the sorted-insert exception for "
                 "nonlead_off is path-conditioned, not blanket.",
         "design_ref": "DESIGN.md section 3 / C02, rules R5, R6",
@@ -145,7 +147,8 @@ CLAIMED = {
                 "request; the four put paths decide in-place swapping by the same tree (hint off / on / size threshold); "
                 "attached-buffer accounting (NC_EINSUFFBUF test dominates allocation, failed pack releases the slot, "
                 "every release reaches abuf_coalesce, size_used has only the listed writers, usage counter and "
-                "table tail are reset together); every MPI type constructor that can leave gaps between elements is "
+                "table tail are reset together; usage equals the sum of the pending slots - the last clause fails on "
+                "today's tree and is listed as known finding F-C13-1); every MPI type constructor that can leave gaps between elements is "
                 "decoded as non-contiguous by ncmpii_dtype_decode (otherwise pack/unpack are skipped and the gaps of the "
                 "caller's buffer are read or overwritten). It does not decide in general that a read touches exactly "
                 "the selected bytes.",
